@@ -97,8 +97,38 @@ def st_case(draw):
             ops.append(prev)
         if draw(st.integers(0, 2)) == 0:
             ops.append(draw(st.sampled_from([{"op": "refit_other"}, {"op": "edit"}, {"op": "repreprocess"},
-                                             {"op": "fit"}, {"op": "same_again"}])))
+                                             {"op": "fit"}, {"op": "same_again"},
+                                             # somebody builds a rater with own regressor keywords in between
+                                             {"op": "rater_kwargs", "regressor": draw(st.sampled_from(sorted(REG_KWARGS)))}])))
     return {"curve": curve, "prefix": prefix, "ops": ops}
+
+
+#: regressor keyword arguments for nanite.rate.rater.get_rater(regressor, **reg_kwargs) that differ from the shipped ones
+REG_KWARGS = {"Decision Tree": {"max_depth": 2}, "Extra Trees": {"n_estimators": 3, "max_depth": 2},
+              "Random Forest": {"n_estimators": 3, "max_depth": 2}, "AdaBoost": {"n_estimators": 3},
+              "Gradient Tree Boosting": {"n_estimators": 3, "max_depth": 2}}
+
+
+def rater_kwargs_op(idnt, op, ctx, desc0):
+    """get_rater(name, **own keywords) is a value-returning convenience call: ratings requested afterwards by name
+    are those of the shipped regressor, as before the call (compared on fresh copies of the curve: no cache)"""
+    import copy
+    from nanite.rate import rater
+    reg = op["regressor"]
+    desc = dict(desc0, regressor=reg)
+
+    def fresh_rating():
+        c = copy.deepcopy(idnt)
+        c._rating = None
+        return c.rate_quality(regressor=reg, training_set="zef18")
+    with ctx.no_raise("rate-quality-raises", dict(desc, around="get_rater")) as guard:
+        v1 = fresh_rating()
+        rater.get_rater(reg, **REG_KWARGS[reg])
+        v2 = fresh_rating()
+    if guard.ok:
+        ctx.check(v1 == v2, "rating-depends-on-earlier-get_rater-call", desc,
+                  f"{reg}: {v1!r} before and {v2!r} after get_rater({reg!r}, **{REG_KWARGS[reg]!r})")
+    ctx.event("get_rater_with_keywords")
 
 
 def fit_default(idnt, curve, **kw):
@@ -210,6 +240,9 @@ def check_case(case, ctx):
     last_key = None
     classes = [case["prefix"], "long" if curve["n_app"] >= 600 else "short"]
     for n, op in enumerate(case["ops"]):
+        if op["op"] == "rater_kwargs":
+            rater_kwargs_op(idnt, op, ctx, desc0)
+            continue
         if op["op"] != "rate":
             state_op(idnt, op, curve, counter)
             continue
